@@ -170,16 +170,16 @@ theorem fe_ends_yml (pr : Rat → List Nat) (a : FeId) : ∃ p, feTarget pr a = 
   case glyph n => exact ⟨lit "glyph_ir/" ++ (escBody n ++ caseSuffix n), by simp [feTarget, stringToFilename]⟩
   case anchor n => exact ⟨lit "anchor_ir/" ++ (escBody n ++ caseSuffix n), by simp [feTarget, stringToFilename]⟩
   case kernInstance l => exact ⟨escBody (kernName pr l) ++ caseSuffix (kernName pr l), by simp [kernFileName, feTarget, stringToFilename]⟩
-  case staticMetadata => exact ⟨lit "static_metadata", by decide⟩
-  case globalMetrics => exact ⟨lit "global_metrics", by decide⟩
-  case preliminaryGlyphOrder => exact ⟨lit "glyph_order.preliminary", by decide⟩
-  case glyphOrder => exact ⟨lit "glyph_order", by decide⟩
-  case preliminaryGdefCategories => exact ⟨lit "gdef_categories.preliminary", by decide⟩
-  case gdefCategories => exact ⟨lit "gdef_categories", by decide⟩
-  case features => exact ⟨lit "features", by decide⟩
-  case kerningLocations => exact ⟨lit "kern_locations", by decide⟩
-  case colorPalettes => exact ⟨lit "colors", by decide⟩
-  case paintGraph => exact ⟨lit "paint_graph", by decide⟩
+  case staticMetadata => exact ⟨lit "static_metadata", by simp only [feTarget]; decide⟩
+  case globalMetrics => exact ⟨lit "global_metrics", by simp only [feTarget]; decide⟩
+  case preliminaryGlyphOrder => exact ⟨lit "glyph_order.preliminary", by simp only [feTarget]; decide⟩
+  case glyphOrder => exact ⟨lit "glyph_order", by simp only [feTarget]; decide⟩
+  case preliminaryGdefCategories => exact ⟨lit "gdef_categories.preliminary", by simp only [feTarget]; decide⟩
+  case gdefCategories => exact ⟨lit "gdef_categories", by simp only [feTarget]; decide⟩
+  case features => exact ⟨lit "features", by simp only [feTarget]; decide⟩
+  case kerningLocations => exact ⟨lit "kern_locations", by simp only [feTarget]; decide⟩
+  case colorPalettes => exact ⟨lit "colors", by simp only [feTarget]; decide⟩
+  case paintGraph => exact ⟨lit "paint_graph", by simp only [feTarget]; decide⟩
 
 theorem beFixedAll_no_yml : ∀ b ∈ beFixedAll, (beTarget b).reverse.take 4 ≠ (lit ".yml").reverse.take 4 := by decide
 
